@@ -228,6 +228,151 @@ fn run_windows(cx: &mut CaseCx, case: &Value) {
   cx.sample(json!({"aux_len": alen, "report_len": enc.len(), "windows_tried": 2 * enc.len()}));
 }
 
+
+/// every associated-data length 0..=420 for two measurement lengths: nothing of it in the clear
+fn run_length_sweep(cx: &mut CaseCx, case: &Value) {
+  let lo = case["lo"].as_u64().unwrap() as usize;
+  for alen in lo..lo + 30 {
+    for mlen in [1usize, 29, 124] {
+      let meas = prbytes(0xA0 + mlen as u64, mlen);
+      let aux = Some(prbytes(0xA1 + alen as u64, alen));
+      let rnd = local_randomness(&meas, b"t", 2);
+      let msg = match gen_report(&meas, b"t", 2, &rnd, &aux) {
+        Ok(m) => m,
+        Err(e) => {
+          cx.viol("C03/generate-failed", e, json!({}));
+          continue;
+        }
+      };
+      let enc = msg.to_bytes();
+      let a = aux.as_ref().unwrap();
+      cx.eval();
+      cx.nontrivial(fnv(&enc));
+      if a.len() >= 8 {
+        for off in 0..=(a.len() - 8) {
+          if let Some(at) = enc.windows(8).position(|w| w == &a[off..off + 8]) {
+            cx.viol("C03/aux-in-clear", format!("associated data bytes {}..{} appear in the clear at offset {} of the encoded report (measurement {} bytes, associated data {} bytes, payload {} bytes)", off, off + 8, at, mlen, alen, 8 + mlen + alen), json!({"aux_len": alen, "measurement_len": mlen, "aux_offset": off, "report_offset": at}));
+            break;
+          }
+        }
+      }
+      // and the ciphertext has the payload's length (the property allows the length to leak, nothing else)
+      if msg.ciphertext.to_bytes().len() != 8 + mlen + alen {
+        cx.count("ciphertext_length_differs_from_payload", 1);
+      }
+    }
+  }
+  cx.outcome("aux length sweep");
+}
+
+/// sub-threshold coalitions: k < t reports, interpolate through their share points, follow the chain to the payload
+fn run_coalition(cx: &mut CaseCx, case: &Value) {
+  let t = case["t"].as_u64().unwrap() as u32;
+  let meas = b"coalition target".to_vec();
+  let epoch = b"t".to_vec();
+  let rnd = local_randomness(&meas, &epoch, t);
+  let aux = Some(prbytes(0xC0A + t as u64, 40));
+  let mut msgs = vec![];
+  for i in 0..t {
+    getrandom::verif::set_group(i + 1);
+    match gen_report(&meas, &epoch, t, &rnd, &aux) {
+      Ok(m) => msgs.push(m),
+      Err(_) => return,
+    }
+  }
+  let pl = payload(&meas, &aux);
+  let parsed: Vec<crate::refmodel::AdssShare> = msgs.iter().filter_map(|m| crate::refmodel::parse_adss(&m.share.to_bytes())).collect();
+  if parsed.len() != t as usize || parsed.iter().any(|p| p.s.y.len() != 1) {
+    cx.count("share_shape_unexpected", 1);
+    return;
+  }
+  let open_c = |k: &[u8]| -> Vec<u8> {
+    let mut st = strobe_rs::Strobe::new(b"adss encrypt", strobe_rs::SecParam::B128);
+    st.key(k, false);
+    let mut m = parsed[0].c.clone();
+    st.recv_enc(&mut m, false);
+    m
+  };
+  // replica validation with the full set
+  let all: Vec<(num_bigint::BigUint, num_bigint::BigUint)> = parsed.iter().map(|p| (p.s.x.clone(), p.s.y[0].clone())).collect();
+  let k_true = crate::refmodel::le24(&crate::refmodel::lagrange_at_zero(&all));
+  let shares: Vec<sta_rs::Share> = msgs.iter().map(|m| m.share.clone()).collect();
+  if recover_msg(&shares).ok().and_then(|r| r.ok()) != Some(open_c(&k_true[..16])) {
+    cx.count("chain_replica_unavailable", 1);
+    return;
+  }
+  cx.count("chain_replica_validated", 1);
+  for k in 1..t as usize {
+    let mut subsets: Vec<Vec<usize>> = vec![];
+    if t <= 6 {
+      for_each_subset(t as usize, k, |s| subsets.push(s.to_vec()));
+    } else {
+      subsets.push((0..k).collect());
+      subsets.push((t as usize - k..t as usize).collect());
+    }
+    for sub in subsets {
+      let pts: Vec<(num_bigint::BigUint, num_bigint::BigUint)> = sub.iter().map(|&i| all[i].clone()).collect();
+      let kk = crate::refmodel::le24(&crate::refmodel::lagrange_at_zero(&pts));
+      let r0 = open_c(&kk[..16]);
+      let mut key = vec![0u8; 16];
+      sta_rs::derive_ske_key(&r0, &epoch, &mut key);
+      cx.eval();
+      cx.nontrivial(fnv_str(&format!("{}|{:?}", t, sub)));
+      if msgs[0].ciphertext.decrypt(&key, "star_encrypt") == pl {
+        cx.viol("C03/sub-threshold-coalition-opens-payload", format!("{} < t = {} reports suffice to open the payload: interpolating their share points gives the sharing key (the sharing polynomial has degree < t-1)", k, t), json!({"t": t, "coalition": sub}));
+        return;
+      }
+      cx.count("coalitions_sealed", 1);
+    }
+  }
+  cx.outcome(format!("t={}", t));
+}
+
+/// two aggregations of one measurement and epoch under different thresholds, generated back-to-back on one thread:
+/// opening the smaller one must not open the lone reports of the other
+fn run_cross_aggregation(cx: &mut CaseCx, case: &Value) {
+  let t1 = case["t1"].as_u64().unwrap() as u32;
+  let t2 = case["t2"].as_u64().unwrap() as u32;
+  let meas = b"same measurement".to_vec();
+  let epoch = b"t".to_vec();
+  let mk = |t: u32, n: u32| -> Vec<sta_rs::Message> {
+    let mut v = vec![];
+    for i in 0..n {
+      let mg = sta_rs::MessageGenerator::new(sta_rs::SingleMeasurement::new(&meas), t, &epoch);
+      let mut rnd = [0u8; 32];
+      mg.sample_local_randomness(&mut rnd);
+      if let Ok(m) = sta_rs::Message::generate(&mg, &rnd, Some(sta_rs::AssociatedData::new(&prbytes(0xCA + (t * 16 + i) as u64, 24)))) {
+        v.push(m);
+      }
+    }
+    v
+  };
+  let a = mk(t1, t1);
+  let b = mk(t2, 1); // a lone report of the other aggregation
+  let a2 = mk(t1, 1);
+  if a.len() != t1 as usize || b.is_empty() {
+    return;
+  }
+  cx.eval();
+  cx.nontrivial(fnv_str(&case.to_string()));
+  let shares: Vec<sta_rs::Share> = a.iter().map(|m| m.share.clone()).collect();
+  if let Ok(Ok(r0)) = recover_msg(&shares) {
+    let mut key = vec![0u8; 16];
+    sta_rs::derive_ske_key(&r0, &epoch, &mut key);
+    let plain = b[0].ciphertext.decrypt(&key, "star_encrypt");
+    if sta_rs::load_bytes(&plain).map(|m| m == &meas[..]).unwrap_or(false) {
+      cx.viol("C03/other-aggregation-key-opens-report", format!("a lone report under threshold {} decrypts with the key recovered from the threshold-{} aggregation of the same measurement and epoch (generated right before on the same thread)", t2, t1), json!({"t1": t1, "t2": t2}));
+    } else {
+      cx.count("cross_aggregation_sealed", 1);
+    }
+    if b[0].tag == a[0].tag {
+      cx.viol("C03/other-aggregation-same-tag", format!("reports under thresholds {} and {} carry the same tag", t1, t2), json!({"t1": t1, "t2": t2}));
+    }
+    let _ = a2;
+  }
+  cx.outcome("cross aggregation");
+}
+
 pub fn spec() -> PropSpec {
   PropSpec {
     id: "C03",
@@ -254,6 +399,38 @@ pub fn spec() -> PropSpec {
         },
         run: run_pairs,
         min_counts: &[("evaluations", 10_000)],
+      },
+      Check {
+        name: "aux-length-sweep",
+        rule: "EVERY associated-data length 0..=419 x measurement lengths {1,29,124}: every 8-byte window of the associated data against every offset of the encoded report",
+        gen: |_| (0..14u64).map(|i| json!({"lo": i * 30})).collect(),
+        run: run_length_sweep,
+        min_counts: &[("evaluations", 1000)],
+      },
+      Check {
+        name: "sub-threshold-coalitions",
+        rule: "t in {2,3,4,5,6,9,13}: every coalition of k < t reports (all subsets for t <= 6, first/last k otherwise): interpolate through their share points, open the share's encrypted message with that key (self-validating replica), derive the payload key, try to decrypt: must fail",
+        gen: |_| [2u64, 3, 4, 5, 6, 9, 13].iter().map(|t| json!({"t": t})).collect(),
+        run: run_coalition,
+        min_counts: &[("coalitions_sealed", 50)],
+      },
+      Check {
+        name: "cross-aggregation",
+        rule: "one measurement and epoch under two thresholds, clients generated back-to-back on one thread (all ordered pairs of thresholds from {1,2,3,5}): the key recovered from the first aggregation must not open a lone report of the second, tags differ",
+        gen: |_| {
+          let ts = [1u64, 2, 3, 5];
+          let mut v = vec![];
+          for &a in &ts {
+            for &b in &ts {
+              if a != b {
+                v.push(json!({"t1": a, "t2": b}));
+              }
+            }
+          }
+          v
+        },
+        run: run_cross_aggregation,
+        min_counts: &[("cross_aggregation_sealed", 10)],
       },
       Check {
         name: "report-windows",
